@@ -277,6 +277,8 @@ func runC06(c *Check, a *Analysis) {
 	// a failed call must not poison later calls through a recycled flag object
 	ruleUpgradeOwner(c, a, "R-UPGRADE-OWNER")
 
+	ruleClientDecodeErr(c, a, "R-CLIENT-DECODE-ERR")
+
 	// ---- R-NO-RESIDUE
 	c.Rule("R-NO-RESIDUE", "on the write-error edge of ClientCodec.WriteRequest the sender removes this call from Conn.pending (identity-tested) and, for a stream open, from Conn.streams; no other delete exists on that path", 2)
 	ls := a.Locks()
